@@ -19,7 +19,7 @@ THE PROPERTY that your changes must break:
   Relevant files: {', '.join(p['anchors']['files'])}
   Mechanisms meant to make it hold: {'; '.join(m['name']+' ('+m['where']+')' for m in p['anchors']['mechanism'])}
 
-(ROUND3) Two earlier rounds already produced the obvious changes for this property and a number of less obvious ones (a dropped or narrowed check, a changed boundary in the obvious function, an un-escaped value at the obvious site, state hoisted to class or module scope, memoisation and caches, an encoding asymmetry, reordered start-up steps). Avoid repeating those. Think like a maintainer making a well-meant change for ANOTHER reason: a Python modernisation (pathlib, f-strings, `with` blocks, dropping a "redundant" copy or normalisation), a performance shortcut, the fix of a different bug, support for a new option, stricter or more lenient input handling, a rewritten loop or a merged code path. The change should break the property only in a corner that lies inside the "Quantified over" text above but that a verification harness working from a fixed small alphabet of inputs is most likely to have left out: a longer or differently shaped input, a third request, two configuration options that interact, two protocols that interact, a less used module or option.
+(ROUND4) Three earlier rounds already produced the obvious changes for this property and many less obvious ones (dropped or narrowed checks, changed boundaries, un-escaped values, state hoisted to class or module scope, caches, encoding asymmetries, reordered steps, modernisations such as pathlib / f-strings / splitlines / readline(n), length caps, Unicode normalisation, thread pools, temp-file-and-rename). Avoid repeating those. This time look where nobody has looked yet: (1) the NON-DEFAULT configuration — read conf/pygopherd.conf and conf/mime.types option by option (abstract_headers, abstract_entries, pagetopper, extstrip, ignorepatt, cachetime/cachefile, servername/port/interface, timeout, tracebacks, defaultmimetype, encoding tables, decompressors/decompresspatt, scriptext/pyg options, eaexts, iconmapping, waptop, handler and protocol lists, usechroot/setuid/setgid/detach/pidfile, enable_tls and the certificate options) and find a change that breaks the property only under a setting other than the shipped one or only when two settings interact; (2) the rarely used modules and paths (WAP, Maildir, mbox message selectors, gophermaps inside archives, the HTML title handler, the compressed-file handler, script and PYG handlers, the TAL handler, Gopher+ ASK/3D blocks, the icon selectors, the enhanced protocol, error paths of each); (3) arithmetic and bookkeeping (counters, indexes, sizes, off-by-one at 0, 1, a block size or a digit boundary, integer parsing, sort keys and comparison functions). The change must still look like something a maintainer would plausibly commit.
 
 TASK: produce {n} DIFFERENT changes to the project's source (not its tests), each of which
   (a) still imports/compiles and passes the existing test-suite (run it, to be sure),
